@@ -8,6 +8,7 @@ package c22
 
 import (
 	"encoding/json"
+	"errors"
 	"fmt"
 	"os"
 	"path/filepath"
@@ -104,6 +105,10 @@ func newEnv(fka bool) (*env, error) {
 			e.ran("vperm")
 			return nil
 		})))
+	mgr.Register(brigodier.Literal("verr").Executes(command.Command(func(c *command.Context) error {
+		e.ran("verr")
+		return errors.New("verif: handler failed")
+	})))
 	mgr.Register(brigodier.Literal("VMix").Executes(command.Command(func(c *command.Context) error {
 		e.ran("vmix")
 		return nil
